@@ -258,6 +258,24 @@ def body_str(case):
         got = [] if got is None else [got]
     if sel_norm(got) != sel_norm(exp):
         out.add("str-behaviour", "str-behaviour", f"from_str({s!r}) on {show(doc,150)}: got {show(got,200)} expected {show(exp,200)}")
+        return out
+    # the caller binds the parsed path to some other data (public attribute / constructor parameter) and parses
+    # the same string again: the second parse is again equal to the API-built path and selects from the document given
+    try:
+        parsed.source_data = {"bound": [1, 2, 3]}
+        again = ns.d.DataPath.from_str(s, delimiter=delim) if delim != "/" or len(toks) % 2 else ns.d.DataPath.from_str(s)
+        if not numeric:
+            eq_both(out, again, api, "str-equal", "from_str-again", f"second from_str({s!r}) = {show(again,250)} != API {show(api,250)}")
+        got2 = again.get_data(doc, return_paths=True)
+    except Exception as e:
+        out.exc("str-behaviour-again", e)
+        return out
+    if not parts:
+        got2 = [got2]
+    elif model.is_concrete(parts):
+        got2 = [] if got2 is None else [got2]
+    if sel_norm(got2) != sel_norm(exp):
+        out.add("str-behaviour", "str-behaviour|again", f"second from_str({s!r}) after the first result was bound to other data: got {show(got2,200)} expected {show(exp,200)}")
     return out
 
 
